@@ -11,14 +11,23 @@ N=${M#m}
 git -C /repo worktree add -q --detach $WT HEAD || exit 9
 cleanup() { git -C /repo worktree remove --force $WT 2>/dev/null; }
 trap cleanup EXIT
-cp $SRC/${M}_demo_test.go $WT/tests/zz_${M}_demo_test.go
-RUN="TestM${N}Demo"
-( cd $WT && go test -vet=off -count=1 -run "$RUN" ./tests/ >/tmp/confirm_head_$$.log 2>&1 ); HEAD_RC=$?
+PKG=$(grep -m1 '^package ' $SRC/${M}_demo_test.go | awk '{print $2}')
+case "$PKG" in
+  field|field_test) DDIR=internal/field ;;
+  scalar|scalar_test) DDIR=internal/scalar ;;
+  secp256k1) DDIR=. ;;
+  *) DDIR=tests ;;
+esac
+RACE=""
+grep -q -- "-race" $SRC/${M}_demo_test.go && RACE="-race"
+cp $SRC/${M}_demo_test.go $WT/$DDIR/zz_${M}_demo_test.go
+RUN="M${N}"
+( cd $WT && go test $RACE -vet=off -count=1 -run "$RUN" ./$DDIR/ >/tmp/confirm_head_$$.log 2>&1 ); HEAD_RC=$?
 git -C $WT apply $SRC/$M.diff || { echo "patch does not apply"; exit 9; }
-rm $WT/tests/zz_${M}_demo_test.go
+rm $WT/$DDIR/zz_${M}_demo_test.go
 ( cd $WT && go build ./... && go test -vet=off -count=1 ./... >/tmp/confirm_suite_$$.log 2>&1 ); SUITE_RC=$?
-cp $SRC/${M}_demo_test.go $WT/tests/zz_${M}_demo_test.go
-( cd $WT && go test -vet=off -count=1 -run "$RUN" ./tests/ >/tmp/confirm_mut_$$.log 2>&1 ); MUT_RC=$?
+cp $SRC/${M}_demo_test.go $WT/$DDIR/zz_${M}_demo_test.go
+( cd $WT && go test $RACE -vet=off -count=1 -run "$RUN" ./$DDIR/ >/tmp/confirm_mut_$$.log 2>&1 ); MUT_RC=$?
 echo "demo on HEAD rc=$HEAD_RC (want 0); suite with change rc=$SUITE_RC (want 0); demo with change rc=$MUT_RC (want != 0)"
 OUT=/verif/replays/trymutant_$$.log
 /verif/tools/trymutant.sh $PROP $SRC/$M.diff > $OUT 2>&1
